@@ -15,12 +15,23 @@
       relabelled target under every outcome script and the listed graphs are pairwise different — no hypothesis on the solver, the
       conversion, the LC decision or the explorers; side conditions: simple graphs on `np` vertices, and the relabel maps pass the
       isomorphism test recorded as the specification of networkx `GraphMatcher` (both decidable, evaluated on every observed run).
+    * `alternate_target_result_sound_in_orbit` / `explorer_outputs_in_orbit`: the same with "the LC graphs are simple" replaced by "the LC
+      graphs lie in the orbit", which C16 proves of the four modelled explorers.
+    * when `solve` RETURNS: `alternate_target_returns_if_yes` (every target on ≥ 1 vertex without isolated vertex, explorers in the orbit:
+      it returns as soon as `is_lc_equivalent` says yes on every pair it is asked about — the solver returns by C02 completeness, `lc_check` is
+      total and validated by C09, `str_to_op` knows every emitted gate name), `alternate_target_returns_partial` (relative to the
+      completeness of the LC decision, `lc_decision_complete_statement`) and `alternate_target_total_correct_partial`: relative to C09's single
+      remaining hypothesis `shortcut_complete_on_connected_statement` (the pair-sum claim of the literature), `solve` returns AND every entry is right.
   Orbit membership of the listed graph is decided per output by the harness (independent BFS); the explorers are C16.
 -/
 import GraphiqModel.Properties.C02
 import GraphiqModel.Proofs.AltTarget
 import GraphiqModel.Proofs.AltTargetLoop
 import GraphiqModel.Proofs.AltTargetFinal
+import GraphiqModel.Proofs.AltTargetReturns
+import GraphiqModel.Proofs.AltTargetReturnsConv
+import GraphiqModel.Proofs.LCTotalR
+import GraphiqModel.Properties.C09
 namespace Graphiq.C10
 open Graphiq Graphiq.PRow Graphiq.Tab Graphiq.STab
 
@@ -226,6 +237,155 @@ theorem alternate_target_result_sound (pick : List Nat → Nat) (np : Nat) (targ
   · intro iso h1
     exact Alt.iso_of_isIsoMap np target iso.f (relabelMap iso) (hmatch iso h1)
 
+/-- **the same with the LC graphs coming from the MODELLED orbit explorers** (C16): the side condition "the LC graphs are simple graphs on
+    `np` vertices" of `alternate_target_result_sound` is replaced by "every LC graph handed over for `iso` lies in the LC orbit of `iso`" —
+    which C16 proves for every graph `rgs_orbit_finder`, `linear_partial_orbit`, `depth_first_orbit` and `lc_orbit_finder` return
+    (`explorer_outputs_in_orbit` below), hence for every prefix `[:n_lc]` `solve` takes.  What is left as side condition is only what comes
+    from networkx: the relabel maps pass the `GraphMatcher` specification `isIsoMap`. -/
+theorem alternate_target_result_sound_in_orbit (pick : List Nat → Nat) (np : Nat) (target : Nat → Nat → Bool) (out : List Alt.Entry)
+    (isoAdjs : List BMat) (lcGraphs : BMat → List BMat) (relabelMap : BMat → List Nat)
+    (htarget : Simple np target)
+    (horbit : ∀ iso lc, iso ∈ isoAdjs → lc ∈ lcGraphs iso → InOrbit np iso.f lc)
+    (hmatch : ∀ iso, iso ∈ isoAdjs → isIsoMap np target iso.f (relabelMap iso) = true)
+    (hpick : ∀ keys : List (List Bool), ∀ s, s ∈ Alt.setList keys → pick s ∈ s)
+    (h : Alt.solve (modelParts np isoAdjs lcGraphs relabelMap) pick = .ok out) :
+    (∀ e, e ∈ out → ∀ script : List Bool, script.length = countMeas e.ops →
+      ∃ s, stabRun e.ne np .prob script e.ops = some s ∧
+        ∀ p, (STab.ofTab s.t).Spn p ↔ (targetSTab np e.ne (relabelAdj np target e.map)).Spn p) ∧
+    out.Pairwise (fun e e' => e.g.flat ≠ e'.g.flat) ∧
+    ∃ es, Alt.allEntries (modelParts np isoAdjs lcGraphs relabelMap) = .ok es ∧ out.Sublist es ∧
+      ∀ e, e ∈ es → ∃ e', e' ∈ out ∧ e'.g.flat = e.g.flat := by
+  refine alternate_target_result_sound pick np target out isoAdjs lcGraphs relabelMap htarget ?_ hmatch hpick h
+  intro iso lc h1 h2
+  have ho := horbit iso lc h1 h2
+  exact ⟨ho.1, ho.2.1, ho.simple (Alt.simple_of_isIsoMap np target iso.f _ htarget (hmatch iso h1))⟩
+
+/-- every graph in a prefix `[:n_lc]` of what one of the four modelled explorers returns on a simple `iso` with `np` vertices lies in the LC
+    orbit of `iso` (C16): the hypothesis `horbit` of `alternate_target_result_sound_in_orbit` for each way `solve` fills `lc_graphs` -/
+theorem explorer_outputs_in_orbit (np nlc : Nat) (iso : BMat) (hr : iso.r = np) (hc : iso.c = np) (hs : Simple np iso.f) :
+    (∀ out, rgsOrbitFinder iso = .ok out → ∀ lc ∈ out.take nlc, InOrbit np iso.f lc) ∧
+    (∀ out, linearPartialOrbit iso = .ok out → ∀ lc ∈ out.take nlc, InOrbit np iso.f lc) ∧
+    (∀ isoTest fuel paths out, depthFirstOrbit isoTest fuel iso = .ok (paths, out) → ∀ lc ∈ out.take nlc, InOrbit np iso.f lc) ∧
+    (∀ cfg isoTest fuel draws shuffles out, (∀ s ∈ shuffles, ValidNodes np s) →
+      lcOrbitFinder cfg isoTest fuel iso draws shuffles = .ok out → ∀ lc ∈ out.take nlc, InOrbit np iso.f lc) := by
+  subst hr
+  refine ⟨fun out e lc hl => ?_, fun out e lc hl => ?_, fun isoTest fuel paths out e lc hl => ?_,
+    fun cfg isoTest fuel draws shuffles out hv e lc hl => ?_⟩
+  · exact rgsOrbitFinder_inOrbit iso out hc hs e lc (List.mem_of_mem_take hl)
+  · exact linearPartialOrbit_inOrbit iso out hc hs e lc (List.mem_of_mem_take hl)
+  · exact depthFirstOrbit_inOrbit isoTest fuel iso paths out hc hs e lc (List.mem_of_mem_take hl)
+  · exact lcOrbitFinder_inOrbit cfg isoTest fuel iso draws shuffles out hc hs hv e lc (List.mem_of_mem_take hl)
+
+/-! ### When does `solve` return? -/
+
+/-- **`solve` returns whenever `is_lc_equivalent` says yes on every pair it is asked about** (every target on ≥ 1 vertex without isolated
+    vertex, every list of relabelled targets whose maps pass the `GraphMatcher` specification, every family of LC graphs inside the orbits):
+    the time-reversed solver returns on every LC graph (C02 `model_solver_returns`: "no isolated vertex" is inherited along isomorphisms and
+    local complementations), `lc_check(…, validate=True)` is total and after a `yes` returns validated gates (C09 `lc_check_total_and_right`:
+    neither the assertion of `converter_gate_list` nor the validation warning can fire), `str_to_op` knows every gate name `lc_check` emits
+    (`Alt.lcCheckR_names`), and the loops only pass exceptions on.  `hyes` is decidable; the modelled conversion is run by the driver on every
+    observed pair and compared with the implementation's.  NOT part of the model: the second, redundant validation inside the same `try`
+    (`state_converter_circuit(lc, iso, validate=True)`: the gate list compiled by the stabilizer backend from `|lc⟩`, `Infidelity = 0` asserted) —
+    by C09 the gates map `|lc⟩` exactly onto `|iso⟩`, so it can only fail through the compiler or the metric (C01, C18); on the observed runs
+    every raise of `solve()` on a connected target is reported as a violation. -/
+theorem alternate_target_returns_if_yes (pick : List Nat → Nat) (np : Nat) (target : Nat → Nat → Bool)
+    (isoAdjs : List BMat) (lcGraphs : BMat → List BMat) (relabelMap : BMat → List Nat)
+    (hnp : 0 < np) (htarget : Simple np target) (hniso : Alt.NoIsolated np target)
+    (hshape : ∀ iso, iso ∈ isoAdjs → iso.r = np)
+    (horbit : ∀ iso lc, iso ∈ isoAdjs → lc ∈ lcGraphs iso → InOrbit np iso.f lc)
+    (hmatch : ∀ iso, iso ∈ isoAdjs → isIsoMap np target iso.f (relabelMap iso) = true)
+    (hyes : ∀ iso lc, iso ∈ isoAdjs → lc ∈ lcGraphs iso →
+      ∃ out, LC.isLcEquivalentR lc iso .det [] = .ok out ∧ out.sol.isSome = true) :
+    ∃ out, Alt.solve (modelParts np isoAdjs lcGraphs relabelMap) pick = .ok out := by
+  apply Alt.solve_ok
+  intro iso h1 lc h2
+  have hsi : Simple np iso.f := Alt.simple_of_isIsoMap np target iso.f _ htarget (hmatch iso h1)
+  have hni : Alt.NoIsolated np iso.f := Alt.noIsolated_of_isIsoMap np target iso.f _ hniso (hmatch iso h1)
+  have ho := horbit iso lc h1 h2
+  have hsl : Simple np lc.f := ho.simple hsi
+  have hnl : Alt.NoIsolated np lc.f := Alt.InOrbit.noIsolated hsi hni ho
+  constructor
+  · -- the time-reversed solver returns
+    obtain ⟨ne, ops, e⟩ := C02.model_solver_returns np (Alt.cutAdj np lc.f) hnp (Alt.cutAdj_symm np lc.f hsl)
+      (fun i => by
+        by_cases hi : i < np
+        · rw [Alt.cutAdj_agree np lc.f i i hi hi]; exact hsl.2 i hi
+        · simp [Alt.cutAdj, hi])
+      (fun i hi => by
+        obtain ⟨j, hj, e⟩ := hnl i hi
+        exact ⟨j, hj, by rw [Alt.cutAdj_agree np lc.f i j hi hj]; exact e⟩)
+    exact ⟨(ne, ops), e⟩
+  · -- the conversion returns
+    have hr : lc.r = np := ho.1
+    have hab : lc.r = iso.r := by rw [hr, hshape iso h1]
+    obtain ⟨out, e, hs⟩ := hyes iso lc h1 h2
+    cases hsol : out.sol with
+    | none => rw [hsol] at hs; cases hs
+    | some s =>
+      obtain ⟨zs, _, hc⟩ := LC.lcCheckR_of_yes lc iso out s hab (by rw [hr]; exact hsl) (by rw [hshape iso h1]; exact hsi) e hsol
+      exact Alt.convModel_isSome lc iso _ (hc true)
+
+/-- "the repaired `is_lc_equivalent` never says no on two graphs of the same LC orbit": the completeness half of C09
+    `decides_lc_equivalence_repaired_statement`, which C09 proves relative to the one claim of the literature it leaves unproved, the
+    completeness of the pair-sum shortcut on connected graphs (`lc_decision_complete_of_shortcut` below) -/
+def lc_decision_complete_statement : Prop :=
+  ∀ (a b : BMat) (out : LC.EqOutR), 0 < a.r → a.r = b.r → Simple a.r a.f → Simple b.r b.f →
+    LC.isLcEquivalentR a b .det [] = .ok out →
+    (∃ vs : List Nat, (∀ v ∈ vs, v < a.r) ∧ EqAdj a.r (applySeq a.f vs) b.f) → out.sol.isSome = true
+
+/-- C09: the completeness of the pair-sum shortcut on connected graphs gives the completeness of the repaired decision -/
+theorem lc_decision_complete_of_shortcut (hshort : C09.shortcut_complete_on_connected_statement) : lc_decision_complete_statement := by
+  intro a b out hn hab ha hb e horb
+  exact (C09.decides_lc_equivalence_repaired_partial hshort a b [] out hn hab ha hb e).2 horb
+
+/-- **relative to the completeness of the LC decision, `solve` returns** for every target on ≥ 1 vertex without isolated vertex when the
+    explorers stay in the orbits (C16) and the maps pass the `GraphMatcher` specification: the repaired `is_lc_equivalent` is total (C09)
+    and then says yes on every pair of the same orbit (the orbit relation is symmetric, `Alt.InOrbit.back`).  Together with
+    `alternate_target_result_sound_in_orbit`: it returns, and every entry generates the relabelled target. -/
+theorem alternate_target_returns_partial (hdec : lc_decision_complete_statement)
+    (pick : List Nat → Nat) (np : Nat) (target : Nat → Nat → Bool)
+    (isoAdjs : List BMat) (lcGraphs : BMat → List BMat) (relabelMap : BMat → List Nat)
+    (hnp : 0 < np) (htarget : Simple np target) (hniso : Alt.NoIsolated np target)
+    (hshape : ∀ iso, iso ∈ isoAdjs → iso.r = np)
+    (horbit : ∀ iso lc, iso ∈ isoAdjs → lc ∈ lcGraphs iso → InOrbit np iso.f lc)
+    (hmatch : ∀ iso, iso ∈ isoAdjs → isIsoMap np target iso.f (relabelMap iso) = true) :
+    ∃ out, Alt.solve (modelParts np isoAdjs lcGraphs relabelMap) pick = .ok out := by
+  refine alternate_target_returns_if_yes pick np target isoAdjs lcGraphs relabelMap hnp htarget hniso hshape horbit hmatch ?_
+  intro iso lc h1 h2
+  have hsi : Simple np iso.f := Alt.simple_of_isIsoMap np target iso.f _ htarget (hmatch iso h1)
+  have ho := horbit iso lc h1 h2
+  have hsl : Simple np lc.f := ho.simple hsi
+  have hr : lc.r = np := ho.1
+  have hab : lc.r = iso.r := by rw [hr, hshape iso h1]
+  have ha : Simple lc.r lc.f := by rw [hr]; exact hsl
+  obtain ⟨out, e⟩ := LC.isLcEquivalentR_total lc iso .det [] hab ha (by decide)
+  refine ⟨out, e, hdec lc iso out (by rw [hr]; exact hnp) hab ha (by rw [hshape iso h1]; exact hsi) e ?_⟩
+  obtain ⟨vs, hvs, hb⟩ := Alt.InOrbit.back hsi ho
+  rw [hr]
+  exact ⟨vs, hvs, hb⟩
+
+/-- **relative to the completeness of the pair-sum shortcut on connected graphs (C09 `shortcut_complete_on_connected_statement`, Van den Nest et
+    al., the single hypothesis C09 leaves), `solve` returns AND is right**: every target on ≥ 1 vertex without isolated vertex, explorers in
+    the orbits (C16), maps passing the `GraphMatcher` specification — `solve` returns a list of entries each of which generates, under every
+    outcome script, the target renamed by its map, with pairwise different listed graphs -/
+theorem alternate_target_total_correct_partial (hshort : C09.shortcut_complete_on_connected_statement)
+    (pick : List Nat → Nat) (np : Nat) (target : Nat → Nat → Bool)
+    (isoAdjs : List BMat) (lcGraphs : BMat → List BMat) (relabelMap : BMat → List Nat)
+    (hnp : 0 < np) (htarget : Simple np target) (hniso : Alt.NoIsolated np target)
+    (hshape : ∀ iso, iso ∈ isoAdjs → iso.r = np)
+    (horbit : ∀ iso lc, iso ∈ isoAdjs → lc ∈ lcGraphs iso → InOrbit np iso.f lc)
+    (hmatch : ∀ iso, iso ∈ isoAdjs → isIsoMap np target iso.f (relabelMap iso) = true)
+    (hpick : ∀ keys : List (List Bool), ∀ s, s ∈ Alt.setList keys → pick s ∈ s) :
+    ∃ out, Alt.solve (modelParts np isoAdjs lcGraphs relabelMap) pick = .ok out ∧
+      (∀ e, e ∈ out → ∀ script : List Bool, script.length = countMeas e.ops →
+        ∃ s, stabRun e.ne np .prob script e.ops = some s ∧
+          ∀ p, (STab.ofTab s.t).Spn p ↔ (targetSTab np e.ne (relabelAdj np target e.map)).Spn p) ∧
+      out.Pairwise (fun e e' => e.g.flat ≠ e'.g.flat) := by
+  obtain ⟨out, h⟩ := alternate_target_returns_partial (lc_decision_complete_of_shortcut hshort) pick np target isoAdjs lcGraphs relabelMap
+    hnp htarget hniso hshape horbit hmatch
+  obtain ⟨h1, h2, _⟩ := alternate_target_result_sound_in_orbit pick np target out isoAdjs lcGraphs relabelMap htarget horbit hmatch hpick h
+  exact ⟨out, h, h1, h2⟩
+
 /-! ### Non-vacuity of `solve_result_correct`: one relabelled target (the path 0–1–2 itself), one LC graph, the known circuit -/
 def pathB : BMat := (BMat.ofAdj 3 C02.lin3adj)
 def demoParts : Alt.Parts :=
@@ -268,6 +428,24 @@ example : Simple 3 C02.lin3adj ∧ isIsoMap 3 C02.lin3adj pathB.f [0, 1, 2] = tr
   · intro i hi
     have h1 : i = 0 ∨ i = 1 ∨ i = 2 := by omega
     rcases h1 with rfl | rfl | rfl <;> decide
+
+/-- the additional hypotheses of `alternate_target_returns_if_yes` hold for this instance as well: no isolated vertex, the triangle is in the
+    LC orbit of the path (complement at vertex 1), and the repaired `is_lc_equivalent` says yes -/
+example : Alt.NoIsolated 3 C02.lin3adj ∧ InOrbit 3 pathB.f triB := by
+  refine ⟨?_, rfl, rfl, [1], by simp, ?_⟩
+  · intro i hi
+    have h1 : i = 0 ∨ i = 1 ∨ i = 2 := by omega
+    rcases h1 with rfl | rfl | rfl
+    · exact ⟨1, by omega, by decide⟩
+    · exact ⟨0, by omega, by decide⟩
+    · exact ⟨1, by omega, by decide⟩
+  · intro i j hi hj
+    have h1 : i = 0 ∨ i = 1 ∨ i = 2 := by omega
+    have h2 : j = 0 ∨ j = 1 ∨ j = 2 := by omega
+    rcases h1 with rfl | rfl | rfl <;> rcases h2 with rfl | rfl | rfl <;> decide
+set_option maxRecDepth 100000 in
+example : (match LC.isLcEquivalentR triB pathB .det [] with | .ok out => out.sol.isSome | .error _ => false) = true := by
+  decide +kernel
 
 /-! ### Non-vacuity: renaming the path 0–1–2 by the permutation [2, 0, 1] gives the path 2–0–1 -/
 def path3 : Nat → Nat → Bool := fun i j => (i == 0 && j == 1) || (i == 1 && j == 0) || (i == 1 && j == 2) || (i == 2 && j == 1)
